@@ -235,6 +235,9 @@ type Func struct {
 	Res     []Res   `json:"res"`
 	Body    []*Stmt `json:"body"`
 	Prelude bool    `json:"prelude,omitempty"` // errors.New: in the table, not printed
+	// a function of package b that package a only ever calls as (b.F)(...): the node registered for its
+	// signature in a is then a ParenExpr, a kind the resolver does not handle
+	ParenFromA bool `json:"paren_from_a,omitempty"`
 	// object ids of the parameters n, e, cb and of the receiver t (functions and methods; literals have none)
 	ObjN  int `json:"obj_n,omitempty"`
 	ObjE  int `json:"obj_e,omitempty"`
